@@ -129,14 +129,13 @@ type Exprer struct {
 	selfAlloc *ssa.Alloc
 }
 
-var exprers = map[*ssa.Function]*Exprer{}
 
 func (p *Program) Ex(fn *ssa.Function) *Exprer {
-	if x := exprers[fn]; x != nil {
+	if x := p.exprers[fn]; x != nil {
 		return x
 	}
 	x := &Exprer{P: p, Fn: fn, memo: map[ssa.Value]*Expr{}, busy: map[ssa.Value]bool{}}
-	exprers[fn] = x
+	p.exprers[fn] = x
 	return x
 }
 
